@@ -3,6 +3,7 @@ from __future__ import annotations
 
 import json
 import os
+import functools
 import random
 import re
 
@@ -152,7 +153,105 @@ QUICK_SHAPES = ['plain', 'custom_init', 'str_override', 'base_exception', 'unsub
                 'factory1', 'stop_iteration', 'json_error', 'two_arg_init', 'stale_proxy', 'own_new', 'immutable']
 
 
+# ----------------------------------------------------------------------------------------
+# callables of every species that FILL IN the container they are handed before one of them fails
+
+_FAILS = {'tag': None}
+
+
+def _work(tag, box=None):
+  if isinstance(box, list):
+    box.append(('seen', tag))
+  elif isinstance(box, dict):
+    box['seen'] = tag
+  if _FAILS['tag'] == tag:
+    raise Plain(f'boom {tag}')
+  return (tag, repr(box))
+
+
+def _work3(extra, tag, box=None):
+  return _work(tag, box)
+
+
+class _Worker:
+  def __call__(self, tag, box=None):
+    return _work(tag, box)
+
+  def run(self, tag, box=None):
+    return _work(tag, box)
+
+
+class _WorkCls:
+  def __init__(self, tag, box=None):
+    self.got = _work(tag, box)
+
+  def __repr__(self):
+    return f'WorkCls({self.got!r})'
+
+  @classmethod
+  def make(cls, tag, box=None):
+    return _work(tag, box)
+
+
+def _app(parts=None, more=None, last=None):
+  return ('app', repr(parts), repr(more), repr(last))
+
+
+_WORKER = _Worker()
+_SPECIES = {
+    'function': lambda: _work,
+    'partial_object': lambda: functools.partial(_work3, 0),
+    'partial_object_kw': lambda: functools.partial(_work, box=None),
+    'callable_instance': lambda: _WORKER,
+    'bound_method': lambda: _WORKER.run,
+    'class': lambda: _WorkCls,
+    'classmethod': lambda: _WorkCls.make,
+}
+
+
+def run_species(case):
+  import collections
+  import copy
+  r = random.Random(case['seed'])
+  boxes = [lambda: [], lambda: {}, lambda: [1], lambda: {'z': 0}, lambda: collections.defaultdict(list),
+           lambda: None, lambda: [[]], lambda: ()]
+  nodes, species = [], []
+  for tag in range(3):
+    sp = r.choice(sorted(_SPECIES))
+    species.append(sp)
+    kw = {} if sp == 'partial_object_kw' and r.random() < 0.5 else {'box': r.choice(boxes)()}
+    nodes.append(fdl.Config(_SPECIES[sp](), tag, **kw) if r.random() < 0.5 else
+                 fdl.Config(_SPECIES[sp](), tag=tag, **kw))
+  root = fdl.Config(_app, parts=[nodes[0], nodes[1]], more={'train': nodes[2]}, last=r.choice(boxes)())
+  paths = ['.parts[0]', '.parts[1]', ".more['train']"]
+  k = case['fail']
+  snapshot = copy.deepcopy(root)
+  before = graphs.canon(root)
+  obs = {'species_stage': True, 'species': species, 'fail': k, 'cfg': repr(root)[:300]}
+  _FAILS['tag'] = k
+  try:
+    fdl.build(root)
+    obs['outcome'] = 'returned'
+  except BaseException as e:
+    obs['outcome'] = 'raised'
+    obs['is_instance'] = isinstance(e, Plain)
+    obs['message'] = str(e)[:400]
+    obs['prefix'] = str(e).startswith(f'boom {k}')
+    obs['path_named'] = f' at <root>{paths[k]} ' in str(e)
+  finally:
+    _FAILS['tag'] = None
+  obs['guard_after'] = bool(building._state.in_build)
+  obs['config_unchanged'] = graphs.canon(root) == before
+  try:
+    obs['retry_same_as_fresh'] = fdl.build(root) == fdl.build(snapshot)
+  except Exception as e:
+    obs['retry_same_as_fresh'] = f'raised {type(e).__name__}: {e}'[:200]
+  return obs
+
+
 def cases(tier, r):
+  for _ in range(150 if tier == 'quick' else 2500):
+    yield 'species', {'species_stage': True, 'seed': r.getrandbits(48), 'fail': r.randrange(3)}
   shapes = QUICK_SHAPES if tier == 'quick' else list(SHAPES)
   n = 120 if tier == 'quick' else 1500
   for _ in range(n):
@@ -241,6 +340,8 @@ def run_guard(case):
 
 
 def execute(case):
+  if case.get('species_stage'):
+    return run_species(case), None
   if case.get('guard'):
     return run_guard(case), {'p': 'guard', 'runs': case['runs']}
   root = make_root(case)
@@ -368,6 +469,18 @@ def compare(real, model):
 def oracle(case, real):
   if 'skip' in real:
     return None
+  if real.get('species_stage'):
+    checks = [('outcome', 'raised', 'the failure did not escape fdl.build'),
+              ('is_instance', True, "escaping exception is not an instance of the original exception's class"),
+              ('prefix', True, 'escaping message does not begin with the original message'),
+              ('path_named', True, 'the message does not name the path of the failing Buildable'),
+              ('guard_after', False, 'build guard left set after a failing build'),
+              ('config_unchanged', True, 'the configuration was modified by the failing build'),
+              ('retry_same_as_fresh', True, 'the next build differs from a build of a copy taken before the failure')]
+    for key, want, what in checks:
+      if real.get(key) != want:
+        return {'what': what, 'observed': {k: v for k, v in real.items() if k != 'species_stage'}}
+    return None
   if 'obs' in real and 'guard' in real:
     for run, seen in zip(case['runs'], real['obs']):
       if seen[:-1] != ['rejected'] * run['nested']:
@@ -404,6 +517,8 @@ def oracle(case, real):
 def nontrivial(case, real):
   if 'skip' in real:
     return None
+  if real.get('species_stage'):
+    return ('species', tuple(real['species']), real['fail'])
   if 'guard' in real and 'obs' in real:
     return ('guard', json.dumps(case['runs']))
   return ('dag', case['seed'], len(real['runs']))
